@@ -34,7 +34,7 @@ BIN = ["+", "-", "*", "/", "**", "%"]
 CMP = ["<", ">", "<=", ">=", "==", "!="]
 FN1 = ["ABS", "INT", "SQRT", "EXP", "LN", "LOG10", "SIN", "COS", "TAN", "ROUND", "PERCENT", "ARCSIN", "ARCCOS", "ARCTAN", "GAMMALN"]
 RUN = dict(start="1", stop="5", dt="0.5")
-TIMES = [1.0, 1.5, 5.0]
+TIMES = [1.0, 1.5, 3.0, 5.0]
 
 
 def sname(n):
@@ -188,6 +188,22 @@ def _ev(a, env):
         if env.t - float(RUN["start"]) < d:
             return _ev(a[4], env) if len(a) > 4 else _ev(a[2], env.at(float(RUN["start"])))
         return _ev(a[2], env.at(env.t - d))
+    if a[0] == "call" and a[1] in ("DELAY1", "SMTH3", "DELAY3", "SMTHN", "DELAYN"):
+        # n-th order exponential smooth / material delay (identical for a constant time): a cascade of n first-order stages with
+        # time T/n each, all starting at the initial value (given, or else the input's value at the start), integrated with Euler on the grid
+        start, dt = float(RUN["start"]), float(RUN["dt"])
+        if a[1] in ("SMTHN", "DELAYN"):
+            order, init_at = int(a[4][1]), 5
+        else:
+            order, init_at = (1 if a[1] == "DELAY1" else 3), 4
+        tau = a[3][1] / order
+        init = _ev(a[init_at], env.at(start)) if len(a) > init_at else _ev(a[2], env.at(start))
+        levels = [init] * order
+        for j in range(int(round((env.t - start) / dt))):
+            x = _ev(a[2], env.at(start + j * dt))
+            ins = [x] + levels[:-1]
+            levels = [X._num(l + dt * (i_ - l) / tau) for l, i_ in zip(levels, ins)]
+        return levels[-1]
     if a[0] == "call":
         return env.builtin(["call", a[1]] + [["num", _ev(z, env)] for z in a[2:]])
     if a[0] in ("dt", "starttime", "stoptime", "pi"):
@@ -244,7 +260,16 @@ def rand_tree(rng, depth):
         return ["if", rand_cond(rng, depth), rand_tree(rng, depth - 1), rand_tree(rng, depth - 1)]
     if r < 0.9:
         return ["call", rng.choice(FN1), rand_tree(rng, depth - 1)]
-    k = rng.choice(["MIN", "MAX", "SAFEDIV", "SAFEDIV3", "STEP", "RAMP", "INIT", "DELAY", "DELAY3", "ROOTN"])
+    k = rng.choice(["MIN", "MAX", "SAFEDIV", "SAFEDIV3", "STEP", "RAMP", "INIT", "DELAY", "DELAY3", "ROOTN", "SMOOTH"])
+    if k == "SMOOTH":
+        f = rng.choice(["DELAY1", "SMTH3", "DELAY3", "SMTHN", "DELAYN"])
+        # (the smooth family takes a variable as its input stream; any other expression there is rejected loudly at evaluation time)
+        args = [rng.choice([["ref", CLOCKVAR[0]], ["ref", CLOCKVAR[0]]] + REFS), ["num", rng.choice([2.0, 3.0, 4.0])]]
+        if f in ("SMTHN", "DELAYN"):
+            args.append(["num", rng.choice([1.0, 2.0, 3.0])])
+        if rng.random() < 0.4:
+            args.append(rng.choice(REFS + [["num", 7.0]]))
+        return ["call", f] + args
     if k == "INIT":
         return ["call", "INIT", rand_tree(rng, depth - 1)]
     if k == "DELAY":
@@ -303,6 +328,11 @@ def table():
             out.append(("DELAY%s<-%s" % (d, iname), ["call", "DELAY", inner, ["num", d]]))
             out.append(("DELAY3%s<-%s" % (d, iname), ["call", "DELAY", inner, ["num", d], E]))
         out.append(("DELAY-in-<-%s" % iname, ["bin", "-", A, ["bin", "**", ["call", "DELAY", inner, ["num", 1.0]], ["num", 2.0]]]))
+    for (iname, inner) in (("clockvar", CV), ("const", B)):
+        for f, extra in (("DELAY1", []), ("SMTH3", []), ("DELAY3", []), ("SMTHN", [["num", 2.0]]), ("DELAYN", [["num", 3.0]])):
+            out.append(("%s<-%s" % (f, iname), ["call", f, inner, ["num", 3.0]] + extra))
+            out.append(("%s-init<-%s" % (f, iname), ["call", f, inner, ["num", 2.0]] + extra + [E]))
+            out.append(("%s-in-<-%s" % (f, iname), ["bin", "-", A, ["bin", "**", ["call", f, inner, ["num", 4.0]] + extra, ["num", 2.0]]]))
     for (iname, inner) in inners:
         out.append(("ROOTN<-%s" % iname, ["call", "ROOTN", inner, ["num", 3.0]]))
         out.append(("ROOTN-in-<-%s" % iname, ["bin", "/", A, ["call", "ROOTN", inner, ["num", 2.0]]]))
